@@ -290,7 +290,7 @@ func vC16RunJWS(k *vKit, gen vSx, r *vRng, alg string, size, ser int) {
 	obs := vGuard(func() vSx {
 		o, err := ParseSigned(text)
 		if err != nil {
-			return vErr(vC16ErrCode(err))
+			return vErr(vC16ErrCode(err, text))
 		}
 		sg := &o.Signatures[0]
 		return vOk(vB(sg.original.Protected.bytes()), vB(o.payload), vB(sg.Signature), vB(o.computeAuthData(sg)))
@@ -541,7 +541,7 @@ func vC16RunJWE(k *vKit, gen vSx, r *vRng, alg, enc string, zip, size, ser int) 
 	obs := vGuard(func() vSx {
 		o, err := ParseEncrypted(text)
 		if err != nil {
-			return vErr(vC16ErrCode(err))
+			return vErr(vC16ErrCode(err, text))
 		}
 		return vOk(vB(o.original.Protected.bytes()), vB(o.recipients[0].encryptedKey), vB(o.iv), vB(o.ciphertext), vB(o.tag), vB(o.computeAuthData()))
 	})
